@@ -455,6 +455,12 @@ func (w *World) serveOCSP(cp *CertPlan, src *OCSPSrc) func(x *Exchange, req *htt
 		case SgUnrelatedSelf:
 			spec.SignerKey, spec.ResponderCert, spec.Embed = w.UnrelCert.Key, w.UnrelCert.X, []*x509.Certificate{w.UnrelCert.X}
 		}
+		if c.NoEmbed {
+			switch c.Signer {
+			case SgSelf, SgSibling, SgSiblingIssuerName, SgOtherCADeleg:
+				spec.Embed = nil
+			}
+		}
 		if c.Pad != 0 && x.ReadCap > 0 {
 			spec.PadTo = int(x.ReadCap) + c.Pad - 2
 		}
@@ -750,6 +756,39 @@ type RevObs struct {
 
 type panicToken struct{ id string }
 
+// Panics raised at several sites of one check have values of different
+// concrete types (a component may panic with anything): the transport's value
+// depends on the certificate position.
+type panicTokenB struct{ id string }
+type panicTokenErr struct{ id string }
+
+func (e *panicTokenErr) Error() string { return e.id }
+
+// injectedPanicValue is the value the transport panics with at a position.
+func injectedPanicValue(pv any, pos int) any {
+	switch pos % 3 {
+	case 1:
+		return panicTokenB{id: "sim-injected-panic/B"}
+	case 2:
+		return &panicTokenErr{id: "sim-injected-panic/error"}
+	}
+	return pv
+}
+
+// isInjectedPanic: the recovered value is one of the injected ones, unchanged.
+func isInjectedPanic(v, pv any) bool {
+	if v == pv {
+		return true
+	}
+	switch x := v.(type) {
+	case panicTokenB:
+		return x.id == "sim-injected-panic/B"
+	case *panicTokenErr:
+		return x.id == "sim-injected-panic/error"
+	}
+	return false
+}
+
 func (sc *RevScenario) planExchanges(nt *Net, altSeed uint32) {
 	var lt *Tape
 	if altSeed != 0 {
@@ -815,7 +854,7 @@ func (sc *RevScenario) planExchanges(nt *Net, altSeed uint32) {
 						x.Serve = w.serveOCSP(cp, s)
 					}
 					if sc.PanicAt == "transport" && sc.PanicWorld == w.ID && sc.PanicRep == rep && sc.panicsAt(cp.Pos) && i == 0 {
-						x.Fault = Fault{Kind: FPanic}
+						x.Fault = Fault{Kind: FPanic, Param: cp.Pos}
 					}
 					nt.Plan(ck, x)
 					s.X = append(s.X, x)
@@ -826,7 +865,7 @@ func (sc *RevScenario) planExchanges(nt *Net, altSeed uint32) {
 						x.Serve = w.serveCRL(cp, s, false)
 					}
 					if sc.PanicAt == "transport" && sc.PanicWorld == w.ID && sc.PanicRep == rep && sc.panicsAt(cp.Pos) && i == 0 && len(cp.OCSP) == 0 {
-						x.Fault = Fault{Kind: FPanic}
+						x.Fault = Fault{Kind: FPanic, Param: cp.Pos}
 					}
 					nt.Plan(ck, x)
 					s.XBase = append(s.XBase, x)
@@ -985,6 +1024,28 @@ type revInfra struct {
 	validators map[purpose.Purpose]revocation.Validator
 	pv         *panicToken
 	ka         *keyAllocator
+}
+
+// staggerOf is the start offset of a caller: whole milliseconds plus 7 us per
+// position, so that every staggered caller lives on a timer lattice of its
+// own and no two callers' events can tie.
+func (sc *RevScenario) staggerOf(w *World, rep int) time.Duration {
+	if len(sc.StaggerMs) == 0 {
+		return 0
+	}
+	j := 0
+	for _, x := range sc.Worlds {
+		for r := 0; r < x.reps(); r++ {
+			if x == w && r == rep {
+				if j >= len(sc.StaggerMs) || j == 0 {
+					return 0
+				}
+				return time.Duration(sc.StaggerMs[j])*time.Millisecond + time.Duration(j)*7*time.Microsecond
+			}
+			j++
+		}
+	}
+	return 0
 }
 
 // setup materialises the worlds, plans the exchanges and wires the real
@@ -1336,9 +1397,19 @@ func (sc *RevScenario) execInBubble(obs *RevObs, altSeed uint32, onlyWorld int, 
 			}
 			call()
 		case len(jobs) == 1:
+			if d := sc.staggerOf(w, rep); d > 0 {
+				time.Sleep(d)
+			}
 			call()
 		default:
-			go func() { call(); done <- struct{}{} }()
+			d := sc.staggerOf(w, rep)
+			go func() {
+				if d > 0 {
+					time.Sleep(d)
+				}
+				call()
+				done <- struct{}{}
+			}()
 		}
 	}
 	if len(jobs) > 1 && !sc.Sequential {
